@@ -29,11 +29,12 @@ LedgerOf(s) == [n \in {s[i].a : i \in DOMAIN s} |->
 ReqOf(s) == [n \in {s[i].a : i \in DOMAIN s} |-> s[CHOOSE i \in DOMAIN s : s[i].a = n].v]
 EffOf(e) == [req |-> ReqOf(e.req), burnt |-> e.burnt, term |-> e.term, deployed |-> {e.deployed[i] : i \in DOMAIN e.deployed},
              sh |-> IF e.sh.ran THEN [ran |-> TRUE, ok |-> e.sh.ok, writes |-> Pairs(e.sh.writes),
-                                      keep |-> {e.sh.keep[i] : i \in DOMAIN e.sh.keep}, moved |-> e.sh.moved]
+                                      keep |-> {e.sh.keep[i] : i \in DOMAIN e.sh.keep}, moved |-> e.sh.moved,
+                                      req |-> ReqOf(e.sh.req), dest |-> e.sh.dest]
                     ELSE NoShadow]
 
 NoTx == [kind |-> "none"]
-NoRc == [success |-> FALSE, gasUsed |-> 0, gasCost |-> Zero]
+NoRc == [success |-> FALSE, gasUsed |-> 0, gasCost |-> Zero, oog |-> FALSE]
 NoEff == [req |-> <<>>, burnt |-> Zero, term |-> Zero, deployed |-> {}, sh |-> NoShadow]
 TraceInit == /\ l = 1 /\ led = <<>> /\ pre0 = <<>> /\ pc = "idle" /\ tx = NoTx /\ rc = NoRc /\ eff = NoEff
              /\ frames = <<>> /\ gas = 0 /\ steps = 0 /\ shok = TRUE /\ acts = {}
@@ -62,6 +63,7 @@ TTx == /\ l <= Len(Trace) /\ Trace[l].ev = "Tx" /\ l' = l + 1
                   \* specified outcome (fully determined: failure, or embedded contract) is carried on
                   LET b == IF ~(\A a \in DOMAIN ef.req : IsNat(ef.req[a])) THEN "NoOverspend"
                            ELSE IF ~ReceiptTruthful(t, r, ef) THEN "ReceiptTruthful"
+                           ELSE IF ~OutcomeAgrees(t, r, ef) THEN "OutcomeAgrees"
                            ELSE IF ~GasWithinBought(t, r) THEN "GasWithinBought"
                            ELSE IF ~StoreDetermined(t, r, ef) THEN "MidNotDetermined" ELSE ""
                   IN /\ led' = ChargeOp(Settled(led, t, r, ef), t, Add(t.sizeFee, r.gasCost))
